@@ -105,9 +105,63 @@ pub fn check_view<CS: CLCiphersuite>(rep: &Report, ck: &str, c: &Case, v: &View)
     };
     let leaves = int_leaves(&v.proof);
     let secrets = &v.secrets;
-    // (1) response / challenge
     let mut n_div = 0u64;
+    // (0) targeted pairs: the response that answers for hidden attribute m_i divided by its own challenge.
+    // Sound for ANY attribute value (0 and 1 included): a properly blinded response has a quotient of the
+    // size of blinding / challenge, far above 2^64.
+    {
+        let find = |needle: &str| chals.iter().find(|c| c.0.starts_with(needle)).map(|c| c.1.clone());
+        let root = &v.proof["CL03"];
+        let mut targeted: Vec<(String, Integer, Option<Integer>, Integer)> = vec![]; // (response path, response, challenge, secret)
+        for (k, (_, m)) in v.hidden_vals.iter().enumerate() {
+            if v.kind.starts_with("issuance") {
+                let kk = if v.n_attr == 1 { 0 } else { k };
+                if let Some(s) = int_of(&root["proof_commited_msgs"]["s1"][kk]) {
+                    targeted.push((format!("/CL03/proof_commited_msgs/s1/{}", kk), s, find("/CL03/proof_commited_msgs (recomputed)"), m.clone()));
+                }
+                if let Some(s) = int_of(&root["proofs_commited_mi"][k]["value"]["s1"]) {
+                    targeted.push((format!("/CL03/proofs_commited_mi/{}/value/s1", k), s, find(&format!("/CL03/proofs_commited_mi/{} (recomputed)", k)), m.clone()));
+                }
+                if let Some(s) = int_of(&root["proof_C_Ctrusted"]["d"][k]) {
+                    targeted.push((format!("/CL03/proof_C_Ctrusted/d/{}", k), s, find("/CL03/proof_C_Ctrusted/challenge"), m.clone()));
+                }
+            } else {
+                if let Some(s) = int_of(&root["spok"]["s_5"][k]) {
+                    targeted.push((format!("/CL03/spok/s_5/{}", k), s, find("/CL03/spok/challenge"), m.clone()));
+                }
+                if let Some(s) = int_of(&root["proofs_commited_mi"][k]["value"]["s1"]) {
+                    targeted.push((format!("/CL03/proofs_commited_mi/{}/value/s1", k), s, find(&format!("/CL03/proofs_commited_mi/{} (recomputed)", k)), m.clone()));
+                }
+            }
+        }
+        if targeted.len() < v.hidden_vals.len() * 2 {
+            out(&format!("INCONCLUSIVE property=C19 only {} targeted responses found for {} hidden attributes (proof layout changed?)", targeted.len(), v.hidden_vals.len()));
+            std::process::exit(2);
+        }
+        for (sp, s, ch, m) in &targeted {
+            let Some(ch) = ch else {
+                out(&format!("INCONCLUSIVE property=C19 no challenge found for {}", sp));
+                std::process::exit(2);
+            };
+            n_div += 1;
+            let q = (s / ch).complete();
+            if !far(&q, m) {
+                return rep.fail(
+                    ck,
+                    &format!("quotient-reveals-secret:{}:{}/own-challenge", v.kind, generic_path(sp)),
+                    format!("{}: floor({} / its challenge) = {} differs from the hidden attribute ({}) by less than 2^64 - the response is not masked", v.kind, sp, short(&q), short(m)),
+                    cj(json!({"response": sp, "attribute": m.to_string()})),
+                );
+            }
+        }
+        rep.class_n("targeted-response/challenge-pairs", targeted.len() as u64);
+    }
+    let small_secrets = secrets.iter().any(|s| s.1.significant_bits() < 200);
+    // (1) response / challenge over ALL leaves - only meaningful for high-entropy secrets
     for (sp, s) in &leaves {
+        if small_secrets {
+            break;
+        }
         if *s <= 0 {
             continue;
         }
@@ -131,6 +185,9 @@ pub fn check_view<CS: CLCiphersuite>(rep: &Report, ck: &str, c: &Case, v: &View)
     }
     // (2) response / response
     for (sp, s) in &leaves {
+        if small_secrets {
+            break;
+        }
         if *s <= 0 {
             continue;
         }
@@ -247,6 +304,18 @@ pub fn run(ctx: &Ctx, rep: &Report) -> Meta {
     };
     par_items(ctx, rep, "every-hidden-set", &fixed, |c| one(rep, "every-hidden-set", c));
     run_cases(ctx, rep, "generated", ctx.tier.pick(64, 600), 20, || c17::strat(nmax.max(4)), |c| one(rep, "generated", c));
+    // small attribute values (0 and 1) at hidden positions: targeted pairs and the range-proof inverse map only
+    let small: Vec<Case> = fixed
+        .iter()
+        .enumerate()
+        .map(|(k, c)| {
+            let mut c2 = c.clone();
+            c2.small_mask = if k % 3 == 0 { c.hidden_mask } else { c.hidden_mask & (0b10101 >> (k % 2)) | (1 << (c.hidden_mask.trailing_zeros())) };
+            c2.seed = c.seed.wrapping_add(1000 + k as u32);
+            c2
+        })
+        .collect();
+    par_items(ctx, rep, "small-attributes", &small, |c| one(rep, "small-attributes", c));
     if ctx.tier == Tier::Thorough && !rep.aborted() {
         for (s2, nfix) in [(ClSuite::CL2048, 2usize), (ClSuite::CL3072, 2)] {
             let keys = key_pool(s2, 0, nfix, ctx.seed);
@@ -267,7 +336,7 @@ pub fn run(ctx: &Ctx, rep: &Report) -> Meta {
         rule: "honest issuance proofs (with / without trusted commitment) and signature proofs for EVERY non-empty hidden set (n = 1..3 quick / 1..5 thorough) plus generated cases, high-entropy 256-bit attributes; \
                attacker program: every Fiat-Shamir challenge recomputable from public data (stored ones, C and C mod 2^128 of the interval proofs, and the (t, s1, s2) proofs' challenges recomputed as the verifier does and validated against the verification equation); \
                for every integer leaf s, every such challenge c and every other leaf s': | floor(s/c) - x | >= 2^64 and | floor(s/s') - x | >= 2^64 for every secret x the prover holds (hidden attributes, e, s, the randomness of C and of the trusted commitment); \
-               for every square proof of every embedded range proof the public inverse map floor((floor(d/c)^2 + aa)/2^T), floor((bb - floor(d/c)^2)/2^T) must be >= 2^64 away from the committed value (hidden attribute, e, r); \
+               additionally, with hidden attributes forced to 0 / 1, the response answering for each hidden attribute divided by its own challenge (sound for small values); for every square proof of every embedded range proof the public inverse map floor((floor(d/c)^2 + aa)/2^T), floor((bb - floor(d/c)^2)/2^T) must be >= 2^64 away from the committed value (hidden attribute, e, r); \
                positive control: an under-blinded response is flagged, a properly blinded one is not; non-trivial = proof with >= 1 hidden attribute; evaluations = quotients judged"
             .into(),
         assumptions: vec![
